@@ -48,13 +48,17 @@ class A(Adapter):
 
     def configs(self):
         return [
-            cfg("r2c2", True, gen="random", rb=2, cb=2, rew="cell"),
-            cfg("r2c3block", True, gen="random", rb=2, cb=3, rew="block"),
+            # quick: the non-square grid carries the cell-dense reward (its normaliser is the grid area, rows x columns),
+            # the square one the block-dense reward; the other combinations are in the thorough menu
+            cfg("r2c2block", True, gen="random", rb=2, cb=2, rew="block"),
+            cfg("r2c3", True, gen="random", rb=2, cb=3, rew="cell"),
             cfg("r5c5", gen="random", rb=5, cb=5, rew="cell"),
             cfg("r3c3", gen="random", rb=3, cb=3, rew="cell"),
             cfg("toyrot", c02=True, gen="toyrot", rb=2, cb=2, rew="block"),
             cfg("toynorot", gen="toynorot", rb=2, cb=2, rew="cell"),
-            cfg("r3c2", gen="random", rb=3, cb=2, rew="block"),
+            cfg("r3c2", gen="random", rb=3, cb=2, rew="cell"),
+            cfg("r2c2", gen="random", rb=2, cb=2, rew="cell"),
+            cfg("r2c3block", gen="random", rb=2, cb=3, rew="block"),
         ]
 
     def build(self, c):
